@@ -17,7 +17,7 @@ RULE = ("directory trees materialised on disk with ground truth: 0-6 immediate s
         "--top-size 0/1/2/30; both reports produced by the `coca cloc` binary and read back from "
         "coca_reporter/cloc.csv, coca_reporter/sort_cloc.json and the stdout tables; tagged sub-streams for a "
         "language found only in an IDE/report directory (named in the header with an all-zero column: accepted), "
-        "subdirectories named like *.git (defect), DIR whose characters "
+        "subdirectories named like *.git (fixed by 5353339: must pass), DIR whose characters "
         "start a relative path (cutset trim), ties; non-trivial = at least two rows and two languages "
         "(by-directory) or at least two files (top-file); distinct = distinct input")
 TRUSTED_BASE = ["NOT modelled: github.com/boyter/scc (tokenizer, language detection, goroutine pipeline, JSON "
@@ -201,7 +201,8 @@ def cases(seed, tier):
         dirs = sorted(set(dirs + [d]))
         files += [mk_file([d, "w%d.%s" % (k, LANGS[missing[0]][0])], missing[0], rng.randint(1, 5), 0, 0) for k in range(rng.randint(1, 2))]
         out.append(case("ignored-only-%d" % i, "ignored_only", mk_input("bydir", rng.choice(DIRARGS), [], 30, dirs, files)))
-    # by-directory, subdirectories named like a VCS directory (suffix match of scc's deny list)
+    # by-directory, subdirectories named like a VCS directory (suffix match of scc's deny list): the whole-tree
+    # count skips them, MergeDirKeys (fix 5353339) names their languages; these cases must pass
     for i in range(12 if q else 200):
         rng = vlib.rng_for(seed, ID, "vcs_suffix", i)
         dirs, files = gen_tree(rng, n_sub=rng.randint(0, 3), skip_prob=0.1)
